@@ -207,3 +207,45 @@ def run_gcode(I, gcode, prep=None, subcode=None):
 def gcodes_to_analyse(model):
     """every code with a dedicated handler plus a generic unhandled code"""
     return [n[len(HANDLER_PREFIX):] for n in handler_names(model)] + ['M999']
+
+
+def run_state_method(I, name, args, restrict=None, prep=None):
+    """paths of ExcludeRegionState.<name>(*args) from a fully symbolic state (optionally restricted)"""
+    st, H, S = new_handlers_state(I)
+    for k, v in (restrict or {}).items():
+        st.restrict(k, frozenset(v))
+    if prep is not None:
+        prep(I, st, H, S)
+    res = I.run_method(st, 'ExcludeRegionState', name, S, args)
+    return [Path('%s' % name, s, v, {'H': H, 'S': S}) for (s, v) in res]
+
+
+def new_plugin_state(I):
+    """plugin object whose state / handlers share one ExcludeRegionState, as initialize() builds them"""
+    st, H, S = new_handlers_state(I)
+    st.cls['P'] = 'ExcludeRegionPlugin'
+    st.heap[('P', 'state')] = S
+    st.heap[('P', 'gcodeHandlers')] = H
+    prematerialise(I, st, Obj('P'))
+    return st, Obj('P'), H, S
+
+
+def run_plugin_method(I, name, args, kw=None, restrict=None, prep=None):
+    st, P, H, S = new_plugin_state(I)
+    for k, v in (restrict or {}).items():
+        st.restrict(k, frozenset(v))
+    if prep is not None:
+        prep(I, st, P, H, S)
+    res = I.run_method(st, 'ExcludeRegionPlugin', name, P, args, kw or {})
+    return [Path('%s' % name, s, v, {'P': P, 'H': H, 'S': S}) for (s, v) in res]
+
+
+def axis_logical(I, axis_oid):
+    """the logical coordinate a firmware applying `native = logical*u + offset + homeOffset` would report
+    for the tracked native position of the axis: (current - offset - homeOffset) / unitMultiplier"""
+    from .poly import Poly
+    cur = Poly.sym('%s.current' % axis_oid)
+    off = Poly.sym('%s.offset' % axis_oid)
+    home = Poly.sym('%s.homeOffset' % axis_oid)
+    u = Poly.sym('%s.unitMultiplier' % axis_oid)
+    return (cur - off - home).div(u)
